@@ -142,6 +142,9 @@ def corpus_cases():
         (("vec", ("rfull",)), [("s", [("s", [])] * 2)]),
         (("vec", ("range", "to", ("unit",))), [("s", [("s", [("s", [])])] * 2)]),
         (("bslice", ("arr", 0, u64)), [("s", [("s", [])] * 4)]),
+        # D15: zero-sized zero-copy structures whose unit is larger than 1, eps-copy
+        (("tup", 1, ("arr", 0, u64)), [("s", [("s", [])])]),
+        (("arr", 2, ("opt", ("tup", 1, ("arr", 0, u64)))), [("s", [("t", 1, [("s", [("s", [])])]), ("t", 1, [("s", [("s", [])])])])]),
         # D4: Option
         (("opt", u8), [("t", 1, [n(9)]), ("t", 0, [])]),
         # D10 (known finding): a unit that is not a power of two
